@@ -140,7 +140,7 @@ class ColumnBlueprint(Blueprint):
             self.default = self.default.build()
         if self.parser:
             if '.' in self.type:
-                schema, name = self.type.split('.')
+                schema, name = self.type.split('.', 1)
             else:
                 schema, name = 'public', self.type
             for enum in self.parser.database.enums:
